@@ -15,7 +15,7 @@ import Std.Data.HashMap
     c10.accumulate VARIANT ncalls {loX hiX loY hiY loZ hiZ ns {x y z hex}*ns}*ncalls
                                                   → the canvas after the history of AddField* calls in the job model of
                                                     Model/ParCanvas.lean (jobs of the regenerated expressions, each event
-                                                    `cell += sample` as a read-modify-write): "cx,cy,cz:index:hex" per non-zero cell
+                                                    `cell += sample` as a read-modify-write): "B:cx,cy,cz" per registered block, "cx,cy,cz:index:hex" per non-zero cell
     c10.holds.same_tri_multiset WHAT na nb a.. b..  → the two triangle lists are equal as multisets
     c10.holds.same_outcome TOPO count=N pool=S seq par → sequential and parallel outcome (ok / panic value / crash) identical
     c10.holds.same_output  k a1..ak b1..bk        → the two token lists are identical
@@ -92,7 +92,7 @@ def accumulate (F : FieldFns) : Nat → List String → (Cell → Float) → Lis
       let log ← cells.mapM (fun e => do
         let v ← tbl[e.2]?
         pure (e.1, fun (a : Float) => a + v))
-      accumulate F k rest (runUpd m log) (cells.map (·.1) ++ keys)
+      accumulate F k rest (runUpd m log) (cells.map (·.1) ++ (F.blocks dom).map (fun b => (b, (-1 : Int))) ++ keys)
 
 def handle (op : String) (args : List String) : Option String := do
   match op, args with
@@ -146,7 +146,9 @@ def handle (op : String) (args : List String) : Option String := do
       let F ← fnsOf variant; let n ← nat? ncalls
       let (m, keys) ← accumulate F n rest (fun _ => 0.0) []
       let distinct := (keys.foldl (fun (acc : Std.HashMap Cell Unit) k => acc.insert k ()) {}).toList.map (·.1)
+      -- index -1 marks "block registered" (every enumerated block is allocated by its job, also with an empty sample range)
       let toks := distinct.filterMap (fun k =>
+        if k.2 == -1 then some s!"B:{k.1.1},{k.1.2.1},{k.1.2.2}" else
         let v := m k
         if v == 0.0 then none else some s!"{k.1.1},{k.1.2.1},{k.1.2.2}:{k.2}:{fHex v}")
       pure (joinOr "none" (toks.mergeSort (fun x y => decide (x ≤ y))))
